@@ -302,3 +302,49 @@ theorem run_frep (ops : List FOp) (f : Filter) (c : Endpoint × Nat → Nat) (b 
       · intro x; have := hb x; simp only [step]; split <;> omega
 
 end Flute.TsiFilter
+
+namespace Flute.TsiFilter
+open Flute Flute.Spec.RefCount
+
+/-- a counter that has reached `u64::MAX` makes the next `add` panic -/
+theorem add_overflow (f : Filter) (c : Endpoint × Nat → Nat) (b : Endpoint → Nat) (ep : Endpoint) (tsi : Nat)
+    (h : FRep f c b) (hc : c (ep, tsi) = 2 ^ 64 - 1) : add f ep tsi = .error "add overflow" := by
+  have h2 := h.2 tsi ep
+  rw [hc] at h2
+  unfold add
+  simp only [lookup2] at h2
+  cases hg : AL.get f.tsi tsi with
+  | none => rw [hg] at h2; simp [toOpt] at h2
+  | some t =>
+    rw [hg] at h2
+    simp only [toOpt] at h2
+    simp only [cmAdd, h2]
+    simp
+
+theorem run_append (f : Filter) (xs ys : List FOp) :
+    run f (xs ++ ys) = match run f xs with
+      | .ok f' => run f' ys
+      | .error w => .error w := by
+  induction xs generalizing f with
+  | nil => simp [run]
+  | cons x r ih =>
+    simp only [List.cons_append, run]
+    cases applyOp f x with
+    | ok f' => exact ih f'
+    | error w => rfl
+
+theorem cntFrom_replicate_add {κ : Type} [DecidableEq κ] (n : Nat) (c : κ → Nat) (k : κ) :
+    cntFrom c (List.replicate n (Op.add k)) k = c k + n := by
+  induction n generalizing c with
+  | zero => simp [cntFrom]
+  | succ m ih =>
+    simp only [List.replicate_succ, cntFrom]
+    rw [ih]; simp [step]; omega
+
+theorem tsiOps_replicate_add (n : Nat) (ep : Endpoint) (tsi : Nat) :
+    tsiOps (List.replicate n (FOp.add ep tsi)) = List.replicate n (Op.add (ep, tsi)) := by
+  induction n with
+  | zero => rfl
+  | succ m ih => simp [List.replicate_succ, tsiOps, ih]
+
+end Flute.TsiFilter
